@@ -328,30 +328,34 @@ def validate(ir):
             if abs(live - eval_expect(ir["expect"], M, psi)) > 1e-12:
                 errs.append("measure_expectation_statevector: IR differs from the live function")
                 break
-        L = 2
-        field = qib.field.Field(qib.field.ParticleType.FERMION, qib.lattice.IntegerLattice((L,), pbc=False))
-        by_setting = {b["setting"]: b for b in ir["branches"]}
-        for s in ir["settings"]:
-            a = an.qUCC(field, s)
-            exps = dict((k, v) for k, v in ir["num_params"] if k is not None).get(s, dict(ir["num_params"]).get(None))
-            if exps is None or a.num_parameters != sum(L ** k for k in exps):
-                errs.append(f"num_parameters IR differs for {s!r}")
-                continue
-            if s not in by_setting:
-                errs.append(f"as_matrix has no branch for the accepted setting {s!r}")
-                continue
-            params = np.array([rnd.uniform(-1, 1) for _ in range(a.num_parameters)])
-            live = a.as_matrix(params).toarray()
-            U, off = np.eye(2 ** L, dtype=complex), 0
-            for kinds in by_setting[s]["kinds"]:
-                k = len(kinds)
-                co = params[off:off + L ** k].reshape((L,) * k)
-                off += L ** k
-                T = FieldOperator([FieldOperatorTerm([IFODesc(field, IFOType.FERMI_CREATE if c else IFOType.FERMI_ANNIHIL) for c in kinds], co)]).as_matrix().toarray()
-                A = T.conj().T if ir["gen"]["conj"] else T.T
-                U = U @ expm(T + ir["gen"]["sign"] * A)
-            if np.max(np.abs(U - live)) > 1e-9:
-                errs.append(f"as_matrix IR differs from the live matrix for {s!r}")
+        for L, draws in ((1, 2), (2, 3), (3, 1)):
+            field = qib.field.Field(qib.field.ParticleType.FERMION, qib.lattice.IntegerLattice((L,), pbc=False))
+            by_setting = {b["setting"]: b for b in ir["branches"]}
+            for s in ir["settings"]:
+                a = an.qUCC(field, s)
+                exps = dict((k, v) for k, v in ir["num_params"] if k is not None).get(s, dict((k, v) for k, v in ir["num_params"]).get(None))
+                if exps is None or a.num_parameters != sum(L ** k for k in exps):
+                    errs.append(f"num_parameters IR differs for {s!r}")
+                    continue
+                if s not in by_setting:
+                    errs.append(f"as_matrix has no branch for the accepted setting {s!r}")
+                    continue
+                if L == 3 and a.num_parameters > 20:
+                    continue
+                for _ in range(draws):
+                    params = np.array([rnd.uniform(-1, 1) for _ in range(a.num_parameters)])
+                    live = a.as_matrix(params).toarray()
+                    U, off = np.eye(2 ** L, dtype=complex), 0
+                    for kinds in by_setting[s]["kinds"]:
+                        k = len(kinds)
+                        co = params[off:off + L ** k].reshape((L,) * k)
+                        off += L ** k
+                        T = FieldOperator([FieldOperatorTerm([IFODesc(field, IFOType.FERMI_CREATE if c else IFOType.FERMI_ANNIHIL) for c in kinds], co)]).as_matrix().toarray()
+                        A = T.conj().T if ir["gen"]["conj"] else T.T
+                        U = U @ expm(T + ir["gen"]["sign"] * A)
+                    if np.max(np.abs(U - live)) > 1e-9:
+                        errs.append(f"as_matrix IR differs from the live matrix for {s!r} (L = {L})")
+                        break
         for bad in ("sd ", "ds", "x", ""):
             if bad in ir["settings"]:
                 continue
@@ -367,10 +371,12 @@ def validate(ir):
     return errs
 
 
+def reference_ir():
+    return front_end()
+
+
 def run():
-    ir = front_end()
-    errs = validate(ir)
-    if errs:
-        raise TranslationError("front-end validation failed: " + "; ".join(errs[:5]))
+    from translate import with_reference
+    ir = with_reference("vqe", front_end, validate)
     write_if_changed(LEAN / "QibGen" / "VqeTables.lean", to_lean(ir))
     return ir
